@@ -294,6 +294,10 @@ class G:
         if depth <= 0:
             return self.pure(ty, ctx, 0, pos)
         choices = ["pure", "pure", "let", "if", "case", "dtor", "call", "label", "print"]
+        if self.profile == "shadow":
+            choices += ["capture", "capture", "capture"]
+        elif r.random() < 0.15:
+            choices.append("capture")
         if self.profile == "effects":
             choices += ["print", "print", "exit", "label", "call"]
         if self.profile == "arith":
@@ -303,6 +307,51 @@ class G:
         if r.random() < 0.03:
             choices.append("exit")
         c = r.choice(choices)
+        if c == "capture":
+            # exercise the capture guard of fun2core: an inner binder re-uses the name of an OUTER
+            # variable that is still needed by the continuation, with a different type
+            outers = []
+            seen = set()
+            for v, ch, t in reversed(ctx):
+                if v in seen or v == self.fuel:
+                    continue
+                seen.add(v)
+                if ch == "prd":
+                    outers.append((v, t))
+            if not outers:
+                return self.pure(ty, ctx, depth, pos)
+            ov, ot = r.choice(outers)
+            it = self.some_type(allow_codata=not self.sequenced)
+            while it == ot:
+                it = r.choice([I64, T("List", I64), T("Color"), T("Option", I64), T("Tree")])
+            self.mark(it)
+            self.mark(ot)
+            bty = self.some_type(allow_codata=False)
+            self.mark(bty)
+            inner_bound = self.pure(it, ctx, 1, 3)
+            if r.random() < 0.5 or it == I64 or self.is_codata(it):
+                # let-bound term is itself a let that shadows ov
+                inner = "let %s: %s = %s; %s" % (ov, show_ty(it), inner_bound, self.term(bty, ctx + [(ov, "prd", it)], depth - 1, 0))
+            else:
+                # a case whose clause binders shadow ov
+                _, xs = self.xtors(it)
+                cls = []
+                for cn, cargs, _ in xs:
+                    names = []
+                    c2 = list(ctx)
+                    for k, (an, at) in enumerate(cargs):
+                        n = ov if k == 0 else self.name(c2, avoid=names + [ov] + ([self.fuel] if self.fuel else []))
+                        names.append(n)
+                        c2.append((n, "prd", at))
+                    cls.append("%s%s => %s" % (cn, "(" + ", ".join(names) + ")" if names else "", self.term(bty, c2, depth - 1, 0)))
+                inner = "(%s).case%s { %s }" % (inner_bound, self.tyargs(it), ", ".join(cls))
+            y = self.name(ctx, avoid=[ov] + ([self.fuel] if self.fuel else []))
+            if y == ov:
+                y = "cy"
+            c2 = ctx + [(y, "prd", bty)]
+            keep = "let keep%d: %s = %s; " % (depth, show_ty(ot), ov)
+            body = self.term(ty, c2 + [("keep%d" % depth, "prd", ot)], depth - 1, 0)
+            return self.paren("let %s: %s = %s; %s%s" % (y, show_ty(bty), self.paren(inner, 3, 3) if inner.startswith("let") else inner, keep, body), 3, pos)
         if c == "pure":
             return self.pure(ty, ctx, depth, pos)
         if c == "let":
